@@ -27,6 +27,7 @@ GInit == /\ cfg \in Cfgs /\ n1 \in Nests /\ n2 \in Nests /\ fault \in Faults /\ 
 GNext == ~done /\ done' = TRUE /\ UNCHANGED <<cfg, n1, n2, fault, k1, k2, order, cp>>
 Emit == PrintT(ToJson([cfg |-> cfg, steps |-> Hist]))
 BatchCfgs == { [nsrv |-> 1, tries |-> 3, timeout |-> 1000, seed |-> 1],
+               [nsrv |-> 1, tries |-> 1, timeout |-> 1000, seed |-> 4],      \* every failure is final: completions from inside the requeue loops
                [nsrv |-> 2, tries |-> 2, timeout |-> 1000, seed |-> 2],
                [nsrv |-> 2, tries |-> 2, timeout |-> 1000, seed |-> 3, edns |-> 1, stayopen |-> 1] }
 =============================================================================
